@@ -123,6 +123,7 @@ class _Loader(importlib.abc.Loader):
         tree = _Rewriter().visit(tree)
         ast.fix_missing_locations(tree)
         module.__dict__["_vs_VSet"] = VSet
+        module.__file__ = self.path
         code = compile(tree, self.path, "exec")
         exec(code, module.__dict__)
 
